@@ -2028,8 +2028,9 @@ FLOWFUNCS = [
     # from the position to the new position and whether it succeeded (std: Cursor<&mut [u8]>::write_all).
     dict(coq="gen_writer_try_write", file="src/util.rs", impl=r"impl<'a>\s+Writer<'a>", rust="try_write",
          subst=[(r"self\.0\.position\(\)", "position"), (r"\(block\)\(self\)\.is_ok\(\)", "run_block(&mut position, block)?"),
-                (r"self\.0\.set_position\(pos\);", "position = pos;")],
-         params=[("position", "mutval", "N", None), ("block", "val", "N -> N * bool", None)],
+                (r"self\.0\.set_position\(pos\);", "position = pos;"), (r"self\.available\(\)", "(capacity - position)"),
+                (r"self\.len\(\)", "position")],
+         params=[("position", "mutval", "N", None), ("capacity", "val", "N", None), ("block", "val", "N -> N * bool", None)],
          known_state2=[("run_block", "run_block")], rust_ret="bool"),
     # src/client/flow.rs: can_redirect_auth_header -- may the redirect target keep the credentials: same host, and same scheme or an
     # upgrade to https.  What the function reads off the two URIs (host of the authority, scheme) are values.
@@ -2148,9 +2149,9 @@ def translate_custom(text, cfg, known_all=None, err_mode=False):
         from tools.rsparse import find_fn
         sig, body = find_fn(text, cfg["rust"], cfg.get("nth", 1))
     for rx, rep in cfg["subst"]:
+        # an accessor / call that the function takes as a parameter value.  When the text is no longer there the parameter is simply
+        # unused; if it was altered, the altered text stays and is translated as what it says, or refused (fallback)
         body, n = re.subn(rx, rep, body)
-        if n == 0:
-            raise Unsupported("expected source pattern not found: %s" % rx)
     from tools.rsparse import tokenize
     pp = P(tokenize(body))
     blk = pp.block()
